@@ -100,13 +100,13 @@ def sqlLimitOffset {α : Type} (l : List α) (lim off : Int) : List α :=
   let l' := l.drop off.toNat
   if lim < 0 then l' else l'.take lim.toNat
 
-/-- `MemOrchestrator.get_invocation_ids_paginated` -/
+/-- `MemOrchestrator.get_invocation_ids_paginated`: `offset, limit = max(offset, 0), max(limit, 0)` first -/
 def memPage (o : Orch) (task : Option String) (statuses : List Status) (limit offset : Int) : List String :=
-  pySlice (o.sortDesc (o.cands task statuses)) offset (offset + limit)
+  pySlice (o.sortDesc (o.cands task statuses)) (max offset 0) (max offset 0 + max limit 0)
 
-/-- `SQLiteOrchestrator.get_invocation_ids_paginated` -/
+/-- `SQLiteOrchestrator.get_invocation_ids_paginated`: binds `max(limit, 0)`, `max(offset, 0)` -/
 def sqlPage (o : Orch) (task : Option String) (statuses : List Status) (limit offset : Int) : List String :=
-  sqlLimitOffset (o.sortDesc (o.cands task statuses)) limit offset
+  sqlLimitOffset (o.sortDesc (o.cands task statuses)) (max limit 0) (max offset 0)
 
 /-- the documented reading (`LIMIT/OFFSET semantics`, limit = maximum number of results, offset =
     number skipped): `take limit ∘ drop offset ∘ sort by timestamp desc` -/
